@@ -103,10 +103,100 @@ func verifTargets() reference.Targets {
 	}
 }
 
+// SB: dependent bodies, extensions, addressable blocks and attributes.
+func verifSchemaSB() *schema.BodySchema {
+	str := schema.LiteralType{Type: cty.String}
+	num := schema.LiteralType{Type: cty.Number}
+	return &schema.BodySchema{
+		Attributes: map[string]*schema.AttributeSchema{
+			"top": {Constraint: str, IsOptional: true,
+				Address: &schema.AttributeAddrSchema{Steps: schema.Address{schema.StaticStep{Name: "top"}}, AsReference: true, AsExprType: true, ScopeId: lang.ScopeId("topscope")}},
+		},
+		Blocks: map[string]*schema.BlockSchema{
+			// dependent body selected by the first label; docs link; extensions
+			"res": {
+				Labels: []*schema.LabelSchema{{Name: "type", IsDepKey: true, Completable: true}, {Name: "name"}},
+				Address: &schema.BlockAddrSchema{Steps: schema.Address{schema.LabelStep{Index: 0}, schema.LabelStep{Index: 1}},
+					AsReference: true, ScopeId: lang.ScopeId("resource"), DependentBodyAsData: true, InferDependentBody: true, DependentBodySelfRef: true},
+				Body: &schema.BodySchema{
+					Attributes: map[string]*schema.AttributeSchema{"common": {Constraint: str, IsOptional: true}},
+					Extensions: &schema.BodyExtensions{Count: true, ForEach: true, DynamicBlocks: true, SelfRefs: true},
+				},
+				DependentBody: map[schema.SchemaKey]*schema.BodySchema{
+					schema.NewSchemaKey(schema.DependencyKeys{Labels: []schema.LabelDependent{{Index: 0, Value: "aws"}}}): {
+						Attributes: map[string]*schema.AttributeSchema{
+							"marker": {Constraint: str, IsOptional: true, Description: lang.PlainText("only for aws")},
+							"size":   {Constraint: schema.AnyExpression{OfType: cty.Number}, IsRequired: true},
+						},
+						Blocks: map[string]*schema.BlockSchema{
+							"rule": {Body: &schema.BodySchema{Attributes: map[string]*schema.AttributeSchema{"port": {Constraint: num, IsOptional: true}}}, MaxItems: 2},
+						},
+						DocsLink: &schema.DocsLink{URL: "https://example.com/aws"},
+						Detail:   "aws thing",
+					},
+					schema.NewSchemaKey(schema.DependencyKeys{Labels: []schema.LabelDependent{{Index: 0, Value: "gcp"}}}): {
+						Attributes: map[string]*schema.AttributeSchema{"zone": {Constraint: str, IsOptional: true}},
+					},
+				},
+			},
+			// dependent body selected by an attribute value
+			"mod": {
+				Labels: []*schema.LabelSchema{{Name: "name"}},
+				Body: &schema.BodySchema{Attributes: map[string]*schema.AttributeSchema{
+					"source": {Constraint: str, IsRequired: true, IsDepKey: true},
+				}},
+				DependentBody: map[schema.SchemaKey]*schema.BodySchema{
+					schema.NewSchemaKey(schema.DependencyKeys{Attributes: []schema.AttributeDependent{{Name: "source", Expr: schema.ExpressionValue{Static: cty.StringVal("./m")}}}}): {
+						Attributes: map[string]*schema.AttributeSchema{"input": {Constraint: schema.AnyExpression{OfType: cty.String}, IsOptional: true}},
+					},
+				},
+			},
+			// variable-like block: type of an attribute
+			"variable": {
+				Labels: []*schema.LabelSchema{{Name: "name"}},
+				Address: &schema.BlockAddrSchema{Steps: schema.Address{schema.StaticStep{Name: "var"}, schema.LabelStep{Index: 0}},
+					FriendlyName: "variable", ScopeId: lang.ScopeId("variable"), AsReference: true, AsTypeOf: &schema.BlockAsTypeOf{AttributeExpr: "type"}},
+				Body: &schema.BodySchema{Attributes: map[string]*schema.AttributeSchema{
+					"type":    {Constraint: schema.TypeDeclaration{}, IsOptional: true},
+					"default": {Constraint: schema.AnyExpression{OfType: cty.DynamicPseudoType}, IsOptional: true},
+				}},
+			},
+			// locals-like block: every attribute addressable with its expression type
+			"locals": {
+				Body: &schema.BodySchema{AnyAttribute: &schema.AttributeSchema{
+					Constraint: schema.AnyExpression{OfType: cty.DynamicPseudoType}, IsOptional: true,
+					Address: &schema.AttributeAddrSchema{Steps: schema.Address{schema.StaticStep{Name: "local"}, schema.AttrNameStep{}}, ScopeId: lang.ScopeId("local"), AsExprType: true, AsReference: true},
+				}},
+			},
+			// body as data with nested block types
+			"data": {
+				Labels: []*schema.LabelSchema{{Name: "name"}},
+				Address: &schema.BlockAddrSchema{Steps: schema.Address{schema.StaticStep{Name: "data"}, schema.LabelStep{Index: 0}}, ScopeId: lang.ScopeId("data"), BodyAsData: true, InferBody: true},
+				Body: &schema.BodySchema{
+					Attributes: map[string]*schema.AttributeSchema{"id": {Constraint: str, IsOptional: true}, "n": {Constraint: num, IsOptional: true}},
+					Blocks: map[string]*schema.BlockSchema{
+						"lst": {Type: schema.BlockTypeList, Body: &schema.BodySchema{Attributes: map[string]*schema.AttributeSchema{"v": {Constraint: str, IsOptional: true}}}},
+						"obj": {Type: schema.BlockTypeObject, Body: &schema.BodySchema{Attributes: map[string]*schema.AttributeSchema{"w": {Constraint: num, IsOptional: true}}}},
+					},
+				},
+			},
+			"out": {
+				Labels: []*schema.LabelSchema{{Name: "name"}},
+				Body: &schema.BodySchema{Attributes: map[string]*schema.AttributeSchema{
+					"value": {Constraint: schema.AnyExpression{OfType: cty.DynamicPseudoType}, IsRequired: true},
+					"deps":  {Constraint: schema.List{Elem: schema.Reference{OfScopeId: lang.ScopeId("resource")}}, IsOptional: true},
+				}},
+			},
+		},
+	}
+}
+
 func verifSchemas(i int) *schema.BodySchema {
 	switch i {
 	case 1:
 		return verifSchemaS1()
+	case 2:
+		return verifSchemaSB()
 	}
 	return verifSchemaSA()
 }
@@ -175,5 +265,25 @@ func verifSeedList() []verifSeed {
 		{"heredoc", "str = <<EOT\nhello\nEOT\n", 0},
 		{"unterminated-call", "astr = f1( \"x\", \n", 0},
 		{"comment", "# c\nstr = \"x\" # t\n", 0},
+		// SB
+		{"res-aws", "res \"aws\" \"a\" {\n  marker = \"x\"\n  size = 1\n}\n", 2},
+		{"res-aws-rule", "res \"aws\" \"a\" {\n  size = 1\n  rule {\n    port = 80\n  }\n}\n", 2},
+		{"res-gcp", "res \"gcp\" \"b\" {\n  zone = \"z\"\n  marker = \"x\"\n}\n", 2},
+		{"res-unknown", "res \"zzz\" \"c\" {\n  common = \"x\"\n  other = 1\n}\n", 2},
+		{"res-count", "res \"aws\" \"a\" {\n  count = 2\n  size = count.index\n}\n", 2},
+		{"res-foreach", "res \"aws\" \"a\" {\n  for_each = var.x\n  size = each.value\n}\n", 2},
+		{"res-self", "res \"aws\" \"a\" {\n  size = 1\n  marker = self.size\n}\n", 2},
+		{"res-dynamic", "res \"aws\" \"a\" {\n  size = 1\n  dynamic \"rule\" {\n    for_each = var.x\n    content {\n      port = 1\n    }\n  }\n}\n", 2},
+		{"res-partial-label", "res \"a\n", 2},
+		{"res-one-label", "res \"aws\" {\n}\n", 2},
+		{"mod-dep", "mod \"m\" {\n  source = \"./m\"\n  input = \"i\"\n}\n", 2},
+		{"mod-nodep", "mod \"m\" {\n  source = \"./other\"\n  input = \"i\"\n}\n", 2},
+		{"variable", "variable \"v\" {\n  type = list(string)\n  default = [ \"a\" ]\n}\n", 2},
+		{"variable-notype", "variable \"w\" {\n}\n", 2},
+		{"locals", "locals {\n  a = \"x\"\n  b = { k = 1 }\n  c = [ 1, 2 ]\n}\n", 2},
+		{"data", "data \"d\" {\n  id = \"i\"\n  lst {\n    v = \"a\"\n  }\n  lst {\n    v = \"b\"\n  }\n  obj {\n    w = 1\n  }\n}\n", 2},
+		{"out-refs", "out \"o\" {\n  value = var.v\n  deps = [ aws.a, gcp.b ]\n}\n", 2},
+		{"top-attr", "top = \"t\"\n", 2},
+		{"sb-mixed", "top = \"t\"\nvariable \"v\" {\n  type = string\n}\nout \"o\" {\n  value = var.v\n}\n", 2},
 	}
 }
